@@ -48,6 +48,11 @@ func (r *RolloutReconciler) calculateRolloutStatus(rollout *v1beta1.Rollout) (re
 			newStatus.Phase = v1beta1.RolloutPhaseTerminating
 			cond := util.NewRolloutCondition(v1beta1.RolloutConditionTerminating, corev1.ConditionTrue, v1alpha1.TerminatingReasonInTerminating, "Rollout is in terminating")
 			util.SetRolloutCondition(newStatus, *cond)
+			// the cleanup sequence of a deletion differs from the one that may be in flight (e.g. the success
+			// sequence), so start it from its first task instead of continuing at the persisted one
+			if subStatus := newStatus.GetSubStatus(); subStatus != nil {
+				subStatus.FinalisingStep = ""
+			}
 		}
 		return false, newStatus, nil
 	}
@@ -57,6 +62,10 @@ func (r *RolloutReconciler) calculateRolloutStatus(rollout *v1beta1.Rollout) (re
 		if newStatus.Phase == v1beta1.RolloutPhaseProgressing {
 			newStatus.Phase = v1beta1.RolloutPhaseDisabling
 			newStatus.Message = "Disabling rollout, release resources"
+			// same as for deletion: do not continue another reason's cleanup sequence half-way
+			if subStatus := newStatus.GetSubStatus(); subStatus != nil {
+				subStatus.FinalisingStep = ""
+			}
 		} else {
 			newStatus.Phase = v1beta1.RolloutPhaseDisabled
 			newStatus.Message = "Rollout is disabled"
